@@ -562,7 +562,7 @@ def _stored(job, ctx):
     import json as _json
     keyb, key2b = bytes(range(32)), bytes(255 - i for i in range(32))
     for fmethod in ("aes", "xor", "best"):
-        for where in ("field", "list", "nested"):
+        for where in ("field", "list", "nested", "item"):
             for format in ("json", "yaml"):
                 ident = ["resave", fmethod, where, format]
                 if only and only != ident:
@@ -571,14 +571,17 @@ def _stored(job, ctx):
                 schema.s = cc.SecureField(method=fmethod)
                 schema.l = cc.ListField(cc.SecureField(method=fmethod))
                 schema.sub.s = cc.SecureField(method=fmethod)
+                item_schema = cc.Schema()
+                item_schema.s = cc.SecureField(method=fmethod)
+                schema.items = cc.ListField(item_schema)          # the secret sits in an item of a list of configurations
                 secret = "resaved-secret-%s" % where
-                tree = {"s": secret} if where == "field" else ({"l": [secret]} if where == "list" else {"sub": {"s": secret}})
+                tree = {"s": secret} if where == "field" else ({"l": [secret]} if where == "list" else ({"sub": {"s": secret}} if where == "nested" else {"items": [{"s": secret}]}))
                 case = _case(job, ident)
                 fp = "C08|resave|%s|%s|" % (fmethod, where)
 
                 def stored_of(cfg):
                     t = _json.loads(cfg.dumps("json"))
-                    v = t["s"] if where == "field" else (t["l"][0] if where == "list" else t["sub"]["s"])
+                    v = t["s"] if where == "field" else (t["l"][0] if where == "list" else (t["sub"]["s"] if where == "nested" else t["items"][0]["s"]))
                     return v["method"], base64.b64decode(v["ciphertext"])
                 try:
                     src = cc.Config(schema, key_filename=keyp)
